@@ -18,6 +18,7 @@ STM = "src/formatters/stmt.rs"
 GEN = "src/formatters/general.rs"
 EX = "src/formatters/expression.rs"
 BLK = "src/formatters/block.rs"
+FUN = "src/formatters/functions.rs"
 
 TR, EXP, BLKT = "TokenReference", "Expression", "Block"
 NODES = (
@@ -27,6 +28,9 @@ NODES = (
     + node_specs("ElseIf", "n_elseif", [("else_if_token", TR, "ref"), ("condition", EXP, "ref"), ("then_token", TR, "-"), ("block", BLKT, "ref")])
     + node_specs("GenericFor", "n_gfor", [("for_token", TR, "-"), ("names", "Punctuated<TokenReference>", "ref"), ("in_token", TR, "-"), ("expressions", "Punctuated<Expression>", "ref"),
                                         ("do_token", TR, "-"), ("block", BLKT, "ref"), ("end_token", TR, "-")])
+    + node_specs("LocalFunction", "n_lfun", [("local_token", TR, "-"), ("function_token", TR, "-"), ("name", TR, "ref"), ("body", "FunctionBody", "ref")])
+    + node_specs("FunctionDeclaration", "n_fdecl", [("function_token", TR, "-"), ("name", "FunctionName", "ref"), ("body", "FunctionBody", "ref")])
+    + node_specs("FunctionBody", "n_fb", [("block", BLKT, "ref")])
     + node_specs("NumericFor", "n_nfor", [("for_token", TR, "-"), ("index_variable", TR, "ref"), ("equal_token", TR, "-"), ("start", EXP, "ref"), ("start_end_comma", TR, "-"),
                                         ("end", EXP, "ref"), ("end_step_comma", TR, "opt"), ("step", EXP, "opt"), ("do_token", TR, "-"), ("block", BLKT, "ref"), ("end_token", TR, "-")])
 )
@@ -40,6 +44,14 @@ pub open spec fn strip_top(s: Skel) -> Skel { match s { Skel::Paren(i) => *i, _ 
 pub open spec fn same_condition(e: Expression, r: Expression) -> bool { erase(skel(r)) == erase(strip_top(skel(e))) || erase(skel(r)) == erase(skel(e)) }
 pub open spec fn same_expression(e: Expression, r: Expression) -> bool { erase(skel(r)) == erase(skel(e)) }
 pub uninterp spec fn has_comments(k: NodeKey) -> bool;
+// ---- function definitions ----
+#[verifier::external_type_specification] #[verifier::external_body] pub struct ExFunctionName(FunctionName);
+pub uninterp spec fn fname_id(n: FunctionName) -> int;               // the dotted names and the method name of `function a.b:c`, as tokens
+pub uninterp spec fn fname_trail(n: FunctionName) -> Seq<Token>;     // the trailing trivia of its last token
+pub assume_specification [LocalFunction::new] (name: TokenReference) -> (r: LocalFunction) ensures n_lfun_name(&r) == name;
+pub assume_specification [FunctionDeclaration::new] (name: FunctionName) -> (r: FunctionDeclaration) ensures n_fdecl_name(&r) == name;
+// C11: what stands between the name of a function that is being defined and its `(`
+pub open spec fn definition_space(c: Config) -> TokenType { spaces_tt(if c.space_after_function_names is Always || c.space_after_function_names is Definitions { 1 } else { 0 }) }
 // lists: the values of a punctuated list, and what the formatter has to keep of them
 pub uninterp spec fn pvals<T>(p: Punctuated<T>) -> Seq<T>;
 pub open spec fn name_sig(p: Punctuated<TokenReference>) -> Seq<int> { pvals(p).map_values(|t: TokenReference| tok_of(t)) }
@@ -112,6 +124,37 @@ impl UpdateTrivia for TokenReference2 { }
         Fn(STM, "should_indent_further", mode="stub", sig_edits=[Hole("<'a>(trivia: impl Iterator<Item = &'a Token>, shape: Shape)", "(trivia: Vec<Token>, shape: Shape)", kind="proxy", why="iterator parameter")]),
         Fn(BLK, "format_block", mode="stub", proved_in="block", contract="ensures census(&r) == census(block),"),
         Raw("#[verifier::external_body] pub fn clone_ftt(t: &FormatTriviaType) -> (r: FormatTriviaType) ensures r == *t { unimplemented!() /* t.to_owned() */ }", module="formatters::stmt"),
+        Raw("""
+impl UpdateTrailingTrivia for FunctionName {
+    open spec fn same_sem_t(&self, r: &Self) -> bool { fname_id(*r) == fname_id(*self) }
+    open spec fn trail_ok(&self, t: FormatTriviaType, r: &Self) -> bool { t is Append ==> fname_trail(*r) == fname_trail(*self) + t->Append_0@ }
+    open spec fn not_open(&self) -> bool { other_closed(*self) }
+    #[verifier::external_body] fn update_trailing_trivia(&self, trailing_trivia: FormatTriviaType) -> (r: Self) { unimplemented!() }
+}
+impl UpdateTrailingTrivia for FunctionBody {
+    open spec fn same_sem_t(&self, r: &Self) -> bool { n_fb_block(r) == n_fb_block(self) }
+    open spec fn trail_ok(&self, t: FormatTriviaType, r: &Self) -> bool { true }
+    open spec fn not_open(&self) -> bool { other_closed(*self) }
+    #[verifier::external_body] fn update_trailing_trivia(&self, trailing_trivia: FormatTriviaType) -> (r: Self) { unimplemented!() }
+}
+""", module="formatters::functions"),
+        Fn(CTX, "create_function_definition_trivia", mode="stub", proved_in="ctx", contract="ensures token_type_of(r) == definition_space(ctx.config),"),
+        Fn(FUN, "format_function_name", mode="stub", contract="ensures fname_id(r) == fname_id(*function_name),", note="loop over the dotted names (format_token_reference on each) and the method name"),
+        Fn(FUN, "format_function_body", mode="stub", proved_in="collapse", contract="ensures census(&n_fb_block(&r)) == census(&n_fb_block(function_body)),"),
+        Fn(FUN, "format_local_function", contract="""
+    ensures tok_of(n_lfun_name(&r)) == tok_of(n_lfun_name(local_function)), //# C02.local_function_same
+            census(&n_fb_block(&n_lfun_body(&r))) == census(&n_fb_block(&n_lfun_body(local_function))), //# C02.local_function_same
+            tr_trail(n_lfun_name(&r)).len() >= 1 && token_type_of(tr_trail(n_lfun_name(&r)).last()) == definition_space(ctx.config), //# C11.definition_space
+""", edits=[Hole("strip_trivia(&formatted_name).to_string().len()", "hole_usize()", why="Display width of the name")]),
+        Fn(FUN, "format_function_declaration", contract="""
+    ensures fname_id(n_fdecl_name(&r)) == fname_id(n_fdecl_name(function_declaration)), //# C02.function_declaration_same
+            census(&n_fb_block(&n_fdecl_body(&r))) == census(&n_fb_block(&n_fdecl_body(function_declaration))), //# C02.function_declaration_same
+            fname_trail(n_fdecl_name(&r)).len() >= 1 && token_type_of(fname_trail(n_fdecl_name(&r)).last()) == definition_space(ctx.config), //# C11.definition_space
+""", edits=[Hole("strip_trivia(&formatted_function_name).to_string().len()", "hole_usize()", why="Display width of the name")]),
+        Fn(FUN, "format_anonymous_function", contract="""
+    ensures census(&n_fb_block(&(*r).1)) == census(&n_fb_block(&anonymous_function.1)), //# C02.anonymous_function_same
+            tr_trail((*r).0).len() >= 1 && token_type_of(tr_trail((*r).0).last()) == definition_space(ctx.config), //# C11.definition_space
+""", edits=[Hole('const FUNCTION_LEN: usize = "function".len();', "let FUNCTION_LEN: usize = hole_usize();", why="str::len in a const: a width, used for layout only")]),
         Fn(STM, "format_do_block", contract="""
     ensures census(&n_do_block(&r)) == census(&n_do_block(do_block)), //# C02.do_keeps_statements
 """, edits=[Hole("leading_trivia.to_owned(), trailing_trivia.to_owned()", "clone_ftt(&leading_trivia), clone_ftt(&trailing_trivia)", kind="wrapper", why="FormatTriviaType: Clone (derive dropped on the extracted enum)")]),
@@ -181,6 +224,10 @@ impl UpdateTrivia for TokenReference2 { }
 
 LABELS = {
     "C01.header_keyword_closed": dict(props=["C01", "C02"], text="format_while_block / format_else_if: a line comment behind the `while` / `elseif` keyword is always followed by a line break (the header goes multiline), so the condition is never printed inside the comment"),
+    "C02.local_function_same": dict(props=["C02"], text="format_local_function: same name, same statement census in the body"),
+    "C02.function_declaration_same": dict(props=["C02"], text="format_function_declaration: same dotted / method name, same statement census in the body"),
+    "C02.anonymous_function_same": dict(props=["C02"], text="format_anonymous_function: same statement census in the body"),
+    "C11.definition_space": dict(props=["C11"], text="format_local_function / format_function_declaration / format_anonymous_function: what is appended behind the name (behind `function` for an anonymous function) is one space exactly under space_after_function_names = Always / Definitions, nothing otherwise"),
     "C02.do_keeps_statements": dict(props=["C02"], text="format_do_block: the block of the result has the statement census of the input's block"),
     "C02.while_keeps_statements": dict(props=["C02"], text="format_while_block: same statement census in the body"),
     "C02.while_keeps_condition": dict(props=["C02"], text="format_while_block: the condition is the input's, modulo its top-level parentheses and redundant ones (single-line and hanging layout)"),
@@ -194,4 +241,4 @@ LABELS = {
     "C02.numeric_for_keeps_bounds": dict(props=["C02"], text="format_numeric_for: same index variable, same start / end / step expressions (modulo redundant parentheses), a step exactly where the input has one"),
 }
 
-UNIT = Unit("bodies", items() + [VERIF_MOD], LABELS, macros=[(GEN, "fmt_symbol")], header=HEADER + "use full_moon::ast::ElseIf;\n")
+UNIT = Unit("bodies", items() + [VERIF_MOD], LABELS, macros=[(GEN, "fmt_symbol")], header=HEADER + "use full_moon::ast::{ElseIf, FunctionName};\n")
